@@ -129,7 +129,11 @@ def run(ctx, chk):
              'contracts on every path', floor=10)
     chk.rule('flag-reconcile', 'when authority and path of the target come from different sources the absolute-path flag is '
              'reconciled with the host before dot-segment removal', floor=2)
+    from .c11 import _compare_range
+    chk.rule('compare-range', 'uriCompareRange (which decides "identical scheme" for the compatibility option): NULL equals only NULL, '
+             'lengths compared, texts compared over the full length in characters', floor=8)
     for suf in ('A', 'W'):
+        _compare_range(ctx, chk, ctx.prog, ctx.irp, suf)
         f, pub = find_impl(ctx, suf)
         if len(f.params) != 5:
             raise AnalysisBroken('unexpected signature of %s' % f.name)
